@@ -37,7 +37,8 @@ def required(tier):
     # first never raises on disorder and still satisfies the property)
     return ["hint<governing", "hint==governing", "hint==governing+1", "hint==len-1>governing", "hint>=len",
             "directed:swap_inside_one_segment", "directed:later_segment_then_segment0", "contract_evaluated",
-            "map_with_>=1000_tempo_events", "map_built_through_public_constructors", "whole_generated_chart", "map_with_half_microsecond_ties"] + \
+            "map_with_>=1000_tempo_events", "map_built_through_public_constructors", "whole_generated_chart", "map_with_half_microsecond_ties",
+            "map_asked_640_questions_before_the_hinted_ones", "map_asked_hinted_questions_by_4_threads_at_once"] + \
            [f"disordered:{k}" for k in KINDS]
 
 
@@ -176,10 +177,29 @@ def random_maps(rec, rng, count):
                 hi = ticks[g + 1] if g + 1 < len(ticks) else ticks[g] + 40
                 tie_ticks += [t for t in range(ticks[g], min(hi, ticks[g] + 12))]
             tie_ticks += c01.solve_ticks(tm, tm.horizon(1200 * 10**6), rng)
+        worn = it % 4 == 1
+        if worn:
+            # a map that has answered 640 un-hinted questions before the first hinted one arrives
+            harness.wear(be)
+            rec.cls("map_asked_640_questions_before_the_hinted_ones")
+        pairs = []
         for tick in gen.interesting_ticks(rng, tm, tm.horizon(3600 * 10**6), 25) + tie_ticks:
             g = tm.gov(tick)
             for h in {0, g, g + 1, max(0, g - 1), rng.randint(0, len(ticks) + 1), len(ticks) - 1, len(ticks)}:
-                judge_query(rec, be, ticks, tick, h, lambda: {"kind": "query", "tempos": tempos, "resolution": res, "tick": tick, "hint": h})
+                judge_query(rec, be, ticks, tick, h, lambda: {"kind": "query", "tempos": tempos, "resolution": res, "tick": tick, "hint": h, "worn": worn})
+                pairs.append((tick, h))
+        if it % 4 == 3 and not rec.violations:
+            # the same answers and the same refusals for every thread: four threads put the hinted questions at once (each answer has
+            # just been judged single-threaded)
+            sub = pairs[::max(1, len(pairs) // 70)]
+            calls = [lambda t=t, h=h: (lambda r: (str(r[0]), r[1]))(be.timestamp_at_tick(t, start_iteration_index=h)) for t, h in sub]
+            rec.ev(len(calls))
+            bad = harness.shared_use(rec, calls, it, rounds=3, plain_rounds=10)
+            if bad:
+                rec.violation("hint-visible", f"one tempo map (ticks {ticks[:8]}) asked hinted questions (tick, hint) = {sub[:6]}... by 4 threads at once: {bad}",
+                              {"kind": "shared", "tempos": tempos, "resolution": res, "pairs": [list(p_) for p_ in sub]}, "hinted-answer-differs-when-map-is-shared-by-threads")
+            else:
+                rec.cls("map_asked_hinted_questions_by_4_threads_at_once")
         if rec.full:
             return
 
@@ -392,8 +412,19 @@ def finalize(agg, tier):
 
 def replay(case, rec):
     harness.setup()
-    if case.get("kind") == "query":
+    if case.get("kind") == "shared":
         be = bpm_events_for(case["tempos"], case["resolution"])
+        calls = [lambda t=t, h=h: (lambda r: (str(r[0]), r[1]))(be.timestamp_at_tick(t, start_iteration_index=h)) for t, h in case["pairs"]]
+        for _ in range(6):
+            rec.ev()
+            bad = harness.shared_use(rec, calls, _, rounds=3, plain_rounds=10)
+            if bad:
+                rec.violation("hint-visible", "one tempo map asked hinted questions by 4 threads at once: " + bad, case)
+                break
+    elif case.get("kind") == "query":
+        be = bpm_events_for(case["tempos"], case["resolution"])
+        if case.get("worn"):
+            harness.wear(be)
         judge_query(rec, be, [t for t, _ in case["tempos"]], case["tick"], case["hint"], lambda: case)
     elif case.get("kind") == "disorder":
         judge_disordered(rec, case["text"], case["event_kind"], case["mode"])
